@@ -3,7 +3,7 @@
 # digests must be identical. usage: tools/determinism.sh [runs] [props...]
 export GOFLAGS=-mod=mod GOPROXY=off GOSUMDB=off GOTOOLCHAIN=local
 N=${1:-300}; shift
-PROPS=${@:-C04 C10 C15 C16 C17 C18}
+PROPS=${@:-C04 C10 C12 C15 C16 C17 C18}
 cd /verif/sim && go1.26.8 test -c -tags verif -o /verif/bin/worker.test ./worker || exit 2
 tmp=$(mktemp -d /root/.cache/det.XXXX); rc=0
 for p in $PROPS; do
